@@ -297,10 +297,21 @@ def default_cells(tier):
     for seed in range(16 if tier == "quick" else 48):
         for v in variants[: 2 if tier == "quick" else 4]:
             yield {"seed": 26000 + seed, "n": (100, 180, 300)[seed % 3] + seed, "p": 2 + seed % 5, "params": dict(base, **v)}
+    # thousands of anomalies in ONE predict (more than 4096 / 8192: implementations that evaluate the reported anomalies in batches):
+    # a glitch every third sample, in a column that rotates, clearly above the point penalty
+    for n in ((12_900,) if tier == "quick" else (12_900, 24_700)):
+        yield {"seed": 26900, "n": n, "p": 3, "kind": "many_glitches", "params": dict(base, max_segment_length=20)}
 
 
 def check_default(case):
-    X, kind = D.realistic_series(case["seed"], case["n"], case["p"])
+    if case.get("kind") == "many_glitches":
+        rng = np.random.Generator(np.random.PCG64(case["seed"]))
+        X, kind = 0.1 * rng.standard_normal((case["n"], case["p"])), "many_glitches"
+        rows = np.arange(1, case["n"] - 1, 3)
+        X[rows, rows // 3 % case["p"]] += 9.0 + (rows % 7)
+        X[rows[::5], (rows[::5] // 3 + 1) % case["p"]] += 7.0  # every fifth glitch shows in a second column as well
+    else:
+        X, kind = D.realistic_series(case["seed"], case["n"], case["p"])
     X = X - np.median(X, axis=0)
     info = check({"params": case["params"], "X": X.tolist(), "index": {"kind": "range0"}, "columns": "strings", "mode": "same", "perm_seed": 0})
     info["classes"] = list(info["classes"]) + [f"data={kind}"]
